@@ -4,6 +4,7 @@ import (
 	"go/ast"
 	"go/types"
 	"regexp"
+	"strings"
 
 	"verifcheck/an"
 )
@@ -17,7 +18,7 @@ func init() {
 			"NOT decided: conflict-truncation arithmetic on slots and offsets, payload bytes after reopen, file format.",
 		Assumptions: commonAssumptions,
 		Technique:   "static analysis: branch-returns contracts over normalised comparisons, must-precede cuts, must-hold lockset, canonical-definition provenance across sibling functions",
-		Rules:       "C17.R1 R2 R3 R4",
+		Rules:       "C17.R1 R2 R3 R4 R5",
 	}
 }
 
@@ -193,6 +194,77 @@ func c17(c *an.Ctx) {
 		}
 	}
 	reopenKeepsSnapshotIndex(c, "C17.R4")
+	// ---------------------------------------------------------------- R5: write-path cache coherence
+	{
+		r := c.Rule("C17.R5", "K-GUARD", RL+": FileWrapV2 write path — a slot's cached size/payload is marked valid only for a fresh slot, or together with a full replacement of the cached payload")
+		n := 0
+		for _, nm := range []string{"WriteSlice", "WriteAt"} {
+			f := fn(r, RL+":FileWrapV2."+nm)
+			if f == nil {
+				continue
+			}
+			isCacheField := func(e ast.Expr, names ...string) bool {
+				sel, ok := ast.Unparen(e).(*ast.SelectorExpr)
+				if !ok {
+					return false
+				}
+				ix, ok := ast.Unparen(sel.X).(*ast.IndexExpr)
+				if !ok || !strings.HasSuffix(types.ExprString(ix.X), ".cache") {
+					return false
+				}
+				for _, k := range names {
+					if sel.Sel.Name == k {
+						return true
+					}
+				}
+				return false
+			}
+			valid := f.Find(an.MNode("cache[i].szCached/slotCached = true", func(g *an.Fn, m ast.Node) bool {
+				as, ok := m.(*ast.AssignStmt)
+				return ok && len(as.Lhs) == 1 && len(as.Rhs) == 1 && isCacheField(as.Lhs[0], "szCached", "slotCached") && an.IsBoolLit(g.Info, as.Rhs[0], true)
+			}))
+			// full replacement of the payload: cache[i].data|slot = X where X does not start from the old cached value
+			full := f.Find(an.MNode("cache[i].data/slot = <new value>", func(g *an.Fn, m ast.Node) bool {
+				as, ok := m.(*ast.AssignStmt)
+				if !ok || len(as.Lhs) != 1 || len(as.Rhs) != 1 || !isCacheField(as.Lhs[0], "data", "slot") {
+					return false
+				}
+				if an.IsNilIdent(g.Info, as.Rhs[0]) {
+					return false
+				}
+				if ce, ok := as.Rhs[0].(*ast.CallExpr); ok {
+					if id, ok := ce.Fun.(*ast.Ident); ok && id.Name == "append" && len(ce.Args) > 0 {
+						// append(old, …) extends the old value; append(old[:0], …) replaces it
+						if types.ExprString(ce.Args[0]) == types.ExprString(as.Lhs[0]) {
+							return false
+						}
+					}
+				}
+				return true
+			}))
+			n += valid.Len()
+			for _, s := range valid.List {
+				one := &an.Sites{F: f, Desc: "mark valid", List: []an.Site{s}}
+				// fresh slot?
+				fresh := f.EdgesImplyingAny(an.AtomIs("p0<len(recv.cache)", false))
+				if f.FPath([]int{f.G.Entry}, s.V, nil, fresh) == nil {
+					continue // only reachable through the fresh-slot edge
+				}
+				if full.Len() == 0 {
+					r.Fail(f.Name+": cached entry marked valid without replacing its payload", c.P.Pos(s.Node.Pos()), "%s marks the cache entry of an existing slot valid but never replaces its cached payload: a read before the next reopen returns the bytes of the previous write (or of the zeroing pass) for that index", f.Name)
+					continue
+				}
+				// the replacement happens on every path through the marking (before or after)
+				before := f.FPath([]int{f.G.Entry}, s.V, full.Vs(), nil) == nil
+				after := f.FPath(f.G.Vs[s.V].Succ, f.G.Exit, full.Vs(), nil) == nil
+				if !before && !after {
+					r.Fail(f.Name+": cached entry marked valid without replacing its payload", c.P.Pos(s.Node.Pos()), "%s marks the cache entry of an existing slot valid, but the cached payload is replaced only on some paths (%s)", f.Name, one.Desc)
+				}
+			}
+		}
+		r.AddSites(n)
+		r.Floor(2, "cache validity stores on the write path")
+	}
 }
 
 // reopenKeepsSnapshotIndex is shared by C17 (storage contract across reopen) and C05 (restart replays unflushed committed entries).
